@@ -24,18 +24,18 @@ Dm == Models[m]
 \* families that do not depend on (t2, b) / on b are checked once per (t1, a) / (t1, t2, a)
 OnlyA == {"unary", "cast", "sizeof", "init"}
 OnlyAT == {"bound", "case", "width"}
-\* Dense = FALSE (quick tier): fewer operand values and 6 of the 11 types as the second operand
-B1a == IF Dense THEN {0, 1, 2, 7, 8, 127, 128, 129, 254, 255} ELSE {0, 1, 127, 128, 255}
-B2a == IF Dense THEN {0, 1, 2, 9, 15, 16, 255, 256, 32767, 32768, 32769, 65534, 65535} ELSE {0, 1, 32767, 32768, 65535}
-B1b == IF Dense THEN B1a ELSE {0, 1, 7, 8, 128, 255}
-B2b == IF Dense THEN B2a ELSE {0, 1, 15, 16, 32768, 65535}
-T2s == IF Dense THEN IntTypes ELSE {"char", "ushort", "int", "uint", "long", "ullong"}
+\* Dense = FALSE (quick tier): models A and B, fewer operand values, 5 of the 11 types as the second operand
+B1a == IF Dense THEN {0, 1, 2, 7, 8, 127, 128, 129, 254, 255} ELSE {0, 1, 128, 255}
+B2a == IF Dense THEN {0, 1, 2, 9, 15, 16, 255, 256, 32767, 32768, 32769, 65534, 65535} ELSE {0, 1, 32768, 65535}
+B1b == IF Dense THEN B1a ELSE {0, 1, 7, 8, 255}
+B2b == IF Dense THEN B2a ELSE {0, 1, 15, 16, 65535}
+T2s == IF Dense THEN IntTypes ELSE {"uchar", "int", "uint", "long", "ullong"}
 ValsA(t, dm) == IF Size(t, dm) = 1 THEN {WFromNat(v, 1) : v \in B1a} ELSE {WFromNat(v, 2) : v \in B2a}
 ValsB(t, dm) == IF Size(t, dm) = 1 THEN {WFromNat(v, 1) : v \in B1b} ELSE {WFromNat(v, 2) : v \in B2b}
 
 Families == {"types", "arith", "divrem", "bitwise", "rel", "logical", "shift", "unary", "cond", "cast",
              "literal", "sizeof", "enum", "init", "bound", "case", "width"}
-Init == /\ m \in 1..Len(Models) /\ t1 \in IntTypes /\ t2 \in T2s
+Init == /\ m \in (IF Dense THEN 1..Len(Models) ELSE 1..2) /\ t1 \in IntTypes /\ t2 \in T2s
         /\ a \in ValsA(t1, Models[m]) /\ b \in ValsB(t2, Models[m]) /\ phase = "pick"
 Check(f) == /\ phase = "pick" /\ phase' = f /\ UNCHANGED <<m, t1, t2, a, b>>
             /\ f \in OnlyA => (t2 = "char" /\ WIsZero(b))
@@ -50,6 +50,9 @@ CheckCase == Check("case")        CheckWidth == Check("width")
 Next == \/ CheckTypes \/ CheckArith \/ CheckDivRem \/ CheckBitwise \/ CheckRel \/ CheckLogical \/ CheckShift
         \/ CheckUnary \/ CheckCond \/ CheckCast \/ CheckLiteral \/ CheckSizeof \/ CheckEnum \/ CheckInit
         \/ CheckBound \/ CheckCase \/ CheckWidth
+
+\* a small slice of the domain, used for the run that records TLC's per-action coverage
+Tiny == m = 1 /\ t1 = "uchar" /\ t2 \in {"char", "ullong"}
 
 (* ---- the mathematical reading ------------------------------------------------ *)
 Mod(z, k) == ((z % k) + k) % k
